@@ -552,19 +552,19 @@ Proof.
   intros Hs Hc Hr Hk Hn. destruct ev; unfold gstep in Hs; cbn in Hr, Hk; cbv zeta in Hs.
   - destruct (aget n0 (nodes g)) as [y|] eqn:E; [|discriminate]. inversion Hs; subst; clear Hs.
     rewrite nodes_finish, aget_aset. destruct (x =? n0) eqn:Ex.
-    + apply N.eqb_eq in Ex. subst. rewrite E in Hn. inversion Hn; subst.
+    + apply N.eqb_eq in Ex. subst x. rewrite E in Hn. inversion Hn; subst y.
       eexists; split; [reflexivity|right]. now apply ns_tick.
     + eauto.
   - destruct (aget b (nodes g)) as [y|] eqn:E; [|discriminate].
     destruct (chan_get a b g) as [|m rest] eqn:Ec; [discriminate|]. inversion Hs; subst; clear Hs.
     rewrite nodes_finish, nodes_chan_set, aget_aset. destruct (x =? b) eqn:Ex.
-    + apply N.eqb_eq in Ex. subst. rewrite E in Hn. inversion Hn; subst.
+    + apply N.eqb_eq in Ex. subst x. rewrite E in Hn. inversion Hn; subst y.
       eexists; split; [reflexivity|right]. apply ns_msg; [reflexivity|].
       apply (Hc a b). rewrite Ec. now left.
     + eauto.
   - destruct (aget a (nodes g)) as [y|] eqn:E; [|discriminate]. inversion Hs; subst; clear Hs.
     rewrite nodes_chan_set, nodes_finish, aget_aset. destruct (x =? a) eqn:Ex.
-    + apply N.eqb_eq in Ex. subst. rewrite E in Hn. inversion Hn; subst.
+    + apply N.eqb_eq in Ex. subst x. rewrite E in Hn. inversion Hn; subst y.
       eexists; split; [reflexivity|right]. apply ns_disc.
     + eauto.
   - inversion Hs; subst; clear Hs. rewrite nodes_chan_set. eauto.
@@ -573,27 +573,27 @@ Proof.
     assert (Hg : forall fr, nodes (if fr then chan_set a b [] (chan_set b a [] g) else g) = nodes g)
       by (intros []; reflexivity).
     rewrite Hg, aget_aset. destruct (x =? a) eqn:Ex.
-    + apply N.eqb_eq in Ex. subst. rewrite E in Hn. inversion Hn; subst.
+    + apply N.eqb_eq in Ex. subst x. rewrite E in Hn. inversion Hn; subst y.
       eexists; split; [reflexivity|right]. apply ns_conn.
     + eauto.
   - destruct (aget n0 (nodes g)) as [y|] eqn:E; [|discriminate]. inversion Hs; subst; clear Hs.
     rewrite nodes_finish, aget_aset. destruct (x =? n0) eqn:Ex.
-    + apply N.eqb_eq in Ex. subst. rewrite E in Hn. inversion Hn; subst.
+    + apply N.eqb_eq in Ex. subst x. rewrite E in Hn. inversion Hn; subst y.
       eexists; split; [reflexivity|right]. now apply ns_submit.
     + eauto.
   - destruct (aget n0 (nodes g)) as [y|] eqn:E; [|discriminate]. inversion Hs; subst; clear Hs.
     rewrite nodes_finish, aget_aset. destruct (x =? n0) eqn:Ex.
-    + apply N.eqb_eq in Ex. subst. rewrite E in Hn. inversion Hn; subst.
+    + apply N.eqb_eq in Ex. subst x. rewrite E in Hn. inversion Hn; subst y.
       eexists; split; [reflexivity|right]. now apply ns_admin.
     + eauto.
   - destruct (aget n0 (nodes g)) as [y|] eqn:E; [|discriminate]. inversion Hs; subst; clear Hs.
     rewrite nodes_finish, aget_aset. destruct (x =? n0) eqn:Ex.
-    + apply N.eqb_eq in Ex. subst. rewrite E in Hn. inversion Hn; subst.
+    + apply N.eqb_eq in Ex. subst x. rewrite E in Hn. inversion Hn; subst y.
       eexists; split; [reflexivity|right]. now apply ns_setver.
     + eauto.
   - destruct (aget n0 (nodes g)) as [y|] eqn:E; [|discriminate]. inversion Hs; subst; clear Hs.
     rewrite nodes_finish, aget_aset. destruct (x =? n0) eqn:Ex.
-    + apply N.eqb_eq in Ex. subst. rewrite E in Hn. inversion Hn; subst.
+    + apply N.eqb_eq in Ex. subst x. rewrite E in Hn. inversion Hn; subst y.
       eexists; split; [reflexivity|right]. apply ns_compact.
     + eauto.
   - inversion Hs; subst; clear Hs. cbn.
